@@ -88,7 +88,22 @@ def e2_paired_mutation(F, r):
                 else:
                     r.fail(f"{name}: grow", "adds an activity without adding its job to `jobs` (and without asserting it has no job): job set and activities desynchronise", F.loc(m))
         if a_shr:
-            if j_shr and paired(a_shr, j_shr):
+            # job-wise removal: dropping a job from the job set must remove ALL its activities (retain(!has_same_job)), a positional removal
+            # (remove(idx) / pop / truncate / drain) only removes one activity of a multi-activity job
+            positional = [(b, n_) for b, n_, t in a_ops if n_ in SHRINK and n_ not in ("retain", "retain_mut")]
+            retains_ok = False
+            for b, n_, t in a_ops:
+                if n_ in ("retain", "retain_mut") and len(t["args"]) > 1:
+                    for k, v, p in mir.trace(fn, t["args"][1]):
+                        if k == "agg":
+                            cid = fn["bbs"][v[0]]["s"][v[1]]["r"].get("n")
+                            cf_ = F.fns.get(cid)
+                            if cf_ and any(tt["callee"].endswith("Activity::has_same_job") for _, tt in mir.calls(cf_)):
+                                retains_ok = True
+            if j_shr and positional and not retains_ok:
+                r.fail(f"{name}: shrink", f"a job is dropped from the job set while activities are removed by position (`{positional[0][1]}`): the other activities of a multi-activity "
+                                          "job stay in the tour as orphans (job set and activities disagree)", F.loc(m))
+            elif j_shr and paired(a_shr, j_shr):
                 r.ok(f"{name}: shrink", "activities removal paired with jobs.remove on every path")
             else:
                 r.fail(f"{name}: shrink", "removes activities without removing the job from `jobs`: tour claims to contain a job it does not serve", F.loc(m))
@@ -236,6 +251,30 @@ def d1_independent_copies(F, r):
             r.fail(util.short_fn(fid), f"deep copy returns a borrowed type `{ret}`")
         else:
             r.ok(util.short_fn(fid), "owned result from &self (clone/collect/deep_copy per field)")
+    # deep_slice: every collection of the slice is filtered by the predicate (a slice must be closed over its own actors)
+    for fid in (REG_ADT + "::deep_slice", REGCTX_ADT + "::deep_slice"):
+        fn2 = F.fns.get(fid)
+        if fn2 is None:
+            continue
+        for bi, si, s in mir.stmts(fn2):
+            rv = s["r"]
+            if rv["k"] == "agg" and rv.get("n") in (REG_ADT + "#Registry", REGCTX_ADT + "#RegistryContext") and s["d"]["l"] == 0 or (rv["k"] == "agg" and rv.get("n") in (REG_ADT + "#Registry", REGCTX_ADT + "#RegistryContext")):
+                for fname, o in zip(rv["fs"], rv["o"]):
+                    if fname in ("random",):
+                        continue
+                    leaves, crossed = mir.deep_leaves(fn2, o)
+                    filtered = any(c.endswith("Iterator::filter") or c.endswith("::deep_slice") for c in crossed)
+                    for k_, v_, p_ in leaves:
+                        if k_ == "closure":
+                            for g_ in cg.reach(F, [v_], cha=False):
+                                gf_ = F.fns.get(g_)
+                                if gf_ and any(t_["callee"].endswith("Iterator::filter") for _, t_ in mir.calls(gf_)):
+                                    filtered = True
+                    inst = f"{util.short_fn(fid)}: {fname}"
+                    if filtered:
+                        r.ok(inst, "filtered by the slice predicate")
+                    else:
+                        r.fail(inst, f"`{fname}` of a sliced registry is copied unfiltered: the slice knows actors outside of it (free_actor/use_actor answer for vehicles that are not part of the slice)", F.loc(fid, s["ln"]))
     # Tour::deep_copy copies activities one by one
     fn = F.fns[DEEP_COPIES[0]]
     fam = F.family(DEEP_COPIES[0])
